@@ -40,7 +40,7 @@ def _(h):
     h.eq('inv negates', S.inv().S, -S.S)
 
 
-@claim('revolute-exp', split=True)
+@claim('revolute-exp', split=True, timeout={'quick': 6, 'thorough': 120})
 def _(h):
     S, a, d, q = rev(h)
     th = h.angle('th', -6.29, 6.29)
@@ -117,7 +117,7 @@ def _(h):
     h.is_type('type', S * k, Twist3)
 
 
-@claim('inverse-exp', split=True)
+@claim('inverse-exp', split=True, timeout={'quick': 6, 'thorough': 120})
 def _(h):
     S, a, d, q = rev(h)
     th = h.angle('th', -6.29, 6.29)
@@ -171,7 +171,7 @@ def _(h):
         h.unit(u)
         h.sqrt_hint(l)
     else:
-        u = u / math.sqrt(float(nsq(u)))
+        u = unitize(u)
     S = Twist2.Prismatic(h.arr([l * u[0], l * u[1]]))
     h.eq('w = 0', S.w, 0)
     h.eq('v unit', S.v, u)
